@@ -616,3 +616,87 @@ BASELINE_COPY_FRAME = {
     '_get_slice_comprehension_ifs', '_get_slice_decorator_list', '_get_slice_generators',
     '_get_slice_pattern_attrlikes__attrs', '_get_slice_pattern_attrlikes_patterns',
     '_get_slice_stmtlike__body', '_get_slice_type_params', 'get_slice_nosep'}
+
+
+# ---------------------------------------------------------------------------------------------------------------------
+# C15: "a node taken out of the tree by an edit is unmade" - the walk (and every holder of a node reference) tells a
+# removed node from a live one only by the cleared AST<->FST link, so every deletion of AST nodes from a field list
+# must be covered by an _unmake_fst_tree() of exactly those nodes.
+
+BASELINE_UNMAKE_SITES = {
+    'fst_put_slice._put_slice_Compare__all#0', 'fst_put_slice._put_slice_Compare__all#1', 'fst_put_slice._put_slice_asts#0',
+    'fst_put_slice._put_slice_asts#1', 'fst_put_slice._put_slice_asts2#0', 'fst_put_slice._put_slice_asts2#1',
+    'fst_put_slice._put_slice_asts2#2', 'fst_put_slice._put_slice_asts2#3', 'slice_stmtlike._put_slice_stmtlike_old#0',
+    'slice_stmtlike._put_slice_stmtlike_old#1'}
+
+
+def _norm_dump(n):
+    import copy
+    n = copy.deepcopy(n)
+    for x in ast.walk(n):
+        if hasattr(x, 'ctx'):
+            x.ctx = ast.Load()
+    return ast.dump(n)
+
+
+def unmake_sites():
+    """-> {site: (ok, lineno, text)} for every `del NAME[...]` / `NAME[a:b] = ...` statement of the put modules"""
+    from pyvc import frontend
+    out = {}
+    for modname in ('fst_put_slice', 'slice_stmtlike', 'fst_put_one'):
+        mod = frontend.module(modname)
+        for fn in ast.walk(mod.tree):
+            if not isinstance(fn, ast.FunctionDef):
+                continue
+            unmakes = []
+            for n in ast.walk(fn):
+                if isinstance(n, ast.Call) and isinstance(n.func, ast.Attribute) and n.func.attr == '_unmake_fst_tree':
+                    subs = {_norm_dump(x) for a in n.args for x in ast.walk(a) if isinstance(x, ast.Subscript)}
+                    unmakes.append((n.lineno, subs))
+            k = 0
+            for n in ast.walk(fn):
+                if isinstance(n, ast.Delete):
+                    tg = n.targets
+                elif isinstance(n, ast.Assign):   # `xs[a:b] = new` drops xs[a:b] from the list just like `del`
+                    tg = [t for t in n.targets if isinstance(t, ast.Subscript) and isinstance(t.slice, ast.Slice)]
+                else:
+                    continue
+                for t in tg:
+                    if isinstance(t, ast.Subscript) and isinstance(t.value, ast.Name):
+                        d = _norm_dump(t)
+                        ok = any(ln <= n.lineno and d in subs for ln, subs in unmakes)
+                        out[f'{modname}.{fn.name}#{k}'] = (ok, n.lineno, ast.unparse(t))
+                        k += 1
+    return out
+
+
+def unmake_covers_deletion(rep, prop='C15'):
+    from pyvc import frontend
+    sites = unmake_sites()
+    seen_fn = set()
+    for site in sorted(BASELINE_UNMAKE_SITES):
+        name = f'{prop}.unmake_covers_deletion.{site}'
+        if site not in sites:
+            rep.undecided(name, 'the deletion site registered on the pinned tree is no longer found (function renamed or '
+                          'the deletion rewritten): the obligation can no longer be generated')
+            continue
+        ok, ln, text = sites[site]
+        ident = site.split('#')[0].replace('.', ':', 1)
+        if ident not in seen_fn:
+            seen_fn.add(ident)
+            try:
+                loc = frontend.locate(ident)
+
+                class _S:
+                    name = 'removed nodes are unmade (structural)'
+                    notes = ''
+                rep.function(loc, _S)
+            except Exception:
+                pass
+        rep.other('structural', name, ok,
+                  detail=(f'line {ln}: `del {text}` is covered by an earlier _unmake_fst_tree(... {text} ...)' if ok else
+                          f'line {ln}: `del {text}` takes nodes out of the tree that no earlier _unmake_fst_tree() call of the '
+                          'function names: they stay linked (alive) and a running walk yields them'),
+                  key=name, replay={'function': ident, 'site': site, 'line': ln, 'verifier_output': 'syntactic cover analysis'})
+    rep.extra['unmake_sites_not_registered'] = sorted((s, v[2]) for s, v in sites.items()
+                                                      if s not in BASELINE_UNMAKE_SITES)[:40]
